@@ -223,8 +223,14 @@ exec_op(const char * l, int ctx)
 			fprintf(vt_out, "%s[\"%c\",%lld]", i ? "," : "", fn_plan[i].kind, fn_plan[i].t);
 		fprintf(vt_out, "]"); vt_int("ctx", ctx); FK_CLOCK("c", fk_clock_us); vt_end();
 		if (timeo >= 0) {
+			/* the timeout is the caller's only for the duration of the call: handed over in a block that is released
+			 * (and scribbled on) straight afterwards */
+			struct timeval * tvp = __real_malloc(sizeof(struct timeval));
 			tv.tv_sec = timeo / 1000000; tv.tv_usec = timeo % 1000000;
-			r->cookie = network_connect_timeo(r->sas, &tv, cb_sock, r);
+			*tvp = tv;
+			r->cookie = network_connect_timeo(r->sas, tvp, cb_sock, r);
+			tvp->tv_sec = 3600; tvp->tv_usec = 0;
+			__real_free(tvp);
 		} else
 			r->cookie = network_connect(r->sas, cb_sock, r);
 		r->state = r->cookie ? 1 : 4;
